@@ -13,6 +13,7 @@ import (
 	"bytes"
 	"context"
 	"maps"
+	"slices"
 
 	"github.com/samber/lo"
 	"github.com/synnaxlabs/x/gorp"
@@ -89,6 +90,9 @@ func (d dagWriter) DeleteManyResources(ctx context.Context, ids []ID) error {
 
 // DefineRelationship implements the Writer interface.
 func (d dagWriter) DefineRelationship(ctx context.Context, from ID, t RelationshipType, to ID) error {
+	if from == to {
+		return graph.ErrCyclicDependency
+	}
 	rel := Relationship{From: from, To: to, Type: t}
 	exists, err := d.checkRelationshipExists(ctx, rel)
 	if err != nil || exists {
@@ -109,6 +113,9 @@ func (d dagWriter) DefineRelationship(ctx context.Context, from ID, t Relationsh
 
 // DefineFromOneToManyRelationships implements the Writer interface.
 func (d dagWriter) DefineFromOneToManyRelationships(ctx context.Context, from ID, t RelationshipType, to []ID) error {
+	if slices.Contains(to, from) {
+		return graph.ErrCyclicDependency
+	}
 	rels := lo.Map(to, func(id ID, _ int) Relationship { return Relationship{From: from, To: id, Type: t} })
 	if err := d.validateResourcesExist(ctx, from); err != nil {
 		return err
